@@ -1989,11 +1989,11 @@ Proof.
       destruct (valid_rels n (fun n0 => mem_str n0 (part_names E p)) (rels_or_nil E p n)) as [l|e3] eqn:Ev;
         simpl in Hf; [discriminate|].
       inversion Hf; subst. apply valid_rels_err in Ev as (-> & r & Hr & Hm & Hp).
-      left. split; [auto|]. right; right. exists n, r. repeat split; auto. right. apply (Hnames _ Hpr). }
+      left. split; [auto|]. right; right. exists n, r. split; [right; apply (Hnames _ Hpr)|]. auto. }
   unfold load_rels.
   destruct (valid_rels root (fun n0 => mem_str n0 (part_names E p)) (rels_or_nil E p root)) as [l|e3] eqn:Ev; simpl; [discriminate|].
   intros H; inversion H; subst. apply valid_rels_err in Ev as (-> & r & Hr & Hm & Hp).
-  left. split; [auto|]. right; right. exists root, r. repeat split; [auto|]. left; auto.
+  left. split; [auto|]. right; right. exists root, r. split; [left; auto|]. auto.
 Qed.
 
 (** Presentation(): every way it can be refused, and no other error class *)
